@@ -7,6 +7,7 @@
 mod util;
 mod c03;
 mod c15;
+mod c16;
 
 use std::io::{BufRead, Write};
 
@@ -18,6 +19,13 @@ fn eval(op: &str, args: &[&str]) -> Option<Vec<String>> {
         "parse" => c15::parse(args),
         "rr" => c15::rr(args),
         "sinfo" => c15::sinfo(args),
+        "addr" => c16::addr(args),
+        "addrnew" => c16::addrnew(args),
+        "addrrt" => c16::addrrt(args),
+        "envelope" => c16::envelope(args),
+        "mailcmd" => c16::mailcmd(args),
+        "argv" => c16::argv(args),
+        "envcheck" => c16::envcheck(args),
         _ => None,
     }
 }
